@@ -968,6 +968,33 @@ func TestC03Reconnect(t *testing.T) {
 					}
 					return
 				}
+				// the device's current session is untouched by whatever happened to its previous connection: it is answered, it is
+				// registered, its subscription is listed
+				cur.Ping()
+				w.Step()
+				if cur.BrokerClosed() || cur.Count("PINGRESP") == 0 {
+					viol("c11-ended-without-cause:reconnect", "the device's current connection was closed or its PINGREQ left unanswered after its previous connection %s (closed by the broker: %v)", p.OldEnds, cur.BrokerClosed())
+					return
+				}
+				registered, listed := 0, 0
+				for _, sess := range w.Node(1).Local.ListSessions() {
+					if sess.ClientID() == "dev" {
+						registered++
+					}
+				}
+				for _, sub := range w.Node(1).DState.Subscriptions().All() {
+					if string(sub.Pattern) == "_default/q/#" {
+						listed++
+					}
+				}
+				wantSessions := 1
+				if p.OldEnds == "stays" {
+					wantSessions = 2 // the previous connection has not noticed yet
+				}
+				if registered != wantSessions || listed < 1 {
+					viol("c11-live-session-lost-its-registration:reconnect", "after the device's previous connection %s, %d session(s) of the device are registered on the node (expected %d) and %d subscription(s) to q/# are listed (expected at least 1)", p.OldEnds, registered, wantSessions, listed)
+					return
+				}
 				n0, id := copies()
 				if n0 == 0 {
 					viol("c03-initial-delivery-missing:reconnect", "the message never reached the device's new connection (broker closed it: %v)", cur.BrokerClosed())
